@@ -46,8 +46,8 @@ class C07(Prop):
     def check(self, case):
         code, v = case['code'], case['version']
         g = grammar(v)
-        from .c02 import abandon_strict_parse
-        abandon_strict_parse(g)
+        from ..common import case_int, disturb
+        disturb(g, case_int(code, v))
         try:
             m = g.parse(code)
         except RecursionError:
